@@ -2,6 +2,7 @@ package props
 
 import (
 	"fmt"
+	"go/token"
 	"go/types"
 	"sort"
 	"strings"
@@ -361,6 +362,47 @@ func runC06(p *core.Prog, r *core.Report) {
 		r.Pass("C06.R6", "hash-path/errors", fmt.Sprintf("%d error-returning repository calls on the hash path inspected", n))
 	})
 	r.Guard("C06.R1", "closure/AncestorsOf", "ancestor closure", func() { checkClosureFn(p, r, "C06.R1", "ModuleGraph.AncestorsOf", 1, false) })
+	r.Guard("C06.R3", "reindex/offsets", "index fields follow their lists", func() {
+		fn := p.Func(pkgMani, "reindexAndMergePackage")
+		dest := fn.Params[1]
+		for _, w := range []struct{ idx, list string }{{"BinaryIndex", "Binaries"}, {"PackageIndex", "PackageMeta"}} {
+			n, ok := 0, true
+			core.Instrs(fn, func(in ssa.Instruction) {
+				st, isSt := in.(*ssa.Store)
+				if !isSt {
+					return
+				}
+				fa, isFa := st.Addr.(*ssa.FieldAddr)
+				if !isFa || core.FieldOfAddr(fa).Name() != w.idx {
+					return
+				}
+				n++
+				// value = old + len(dest.<list>)
+				bo, isBo := core.SkipConv(st.Val).(*ssa.BinOp)
+				if !isBo || bo.Op != token.ADD {
+					ok = false
+					return
+				}
+				good := false
+				for _, op := range []ssa.Value{bo.X, bo.Y} {
+					c, isC := core.SkipConv(op).(*ssa.Call)
+					if !isC {
+						continue
+					}
+					if b, isB := c.Call.Value.(*ssa.Builtin); isB && b.Name() == "len" {
+						f, base := core.LoadedField(c.Call.Args[0])
+						if f != nil && f.Name() == w.list && derivesFromParam(base, dest) {
+							good = true
+						}
+					}
+				}
+				if !good {
+					ok = false
+				}
+			})
+			r.Check(n > 0 && ok, "C06.R3", "reindexAndMergePackage/"+w.idx, "on import, "+w.idx+" is shifted by the number of entries already in the importing package's "+w.list+" list — the list the imported entries are appended to — so every imported module keeps designating its own binary / package", "the shift is not len(dest."+w.list+")", p.Pos(fn.Pos()))
+		}
+	})
 	r.MinInstances("C06.R1", 18)
 }
 
